@@ -35,7 +35,7 @@ ASSUMPTIONS = [
     "a single-slope shape is constrained on its own side; flatness on the other side is judged inside the fitted temperature range only",
     "additivity and exact-line tolerances: 4 ulp of the value scale",
 ]
-REQUIRED_REACH = {"post.predict_submodel": 300, "regime.smoothed": 50, "regime.plain": 50, "regime.flat": 5,
+REQUIRED_REACH = {"repeat.evaluations_compared": 300, "post.predict_submodel": 300, "regime.smoothed": 50, "regime.plain": 50, "regime.flat": 5,
                   "regime.equal_bp_at_Tmax": 3, "regime.equal_bp_at_Tmin": 3, "clause.between_flat": 100,
                   "clause.monotone": 300, "clause.exact_line": 100, "clause.asymptote": 30, "clause.loads": 300,
                   "boundary.predict": 20, "regime.percent_k_sum_at_or_above_one": 1500, "document.balance_points_in_reversed_order": 30}
@@ -387,6 +387,28 @@ def run_case(spec):
                 pass  # already reported by the post-condition with its classifier
             if (o["model_type"] != shape).any():
                 add("model-type-column", "model_type column %r != declared %r" % (o["model_type"].iloc[0], shape))
+        if it % 2 == 0 and len(o) == len(T):
+            # the curve is a FUNCTION of temperature: the same document evaluated again (same object, a second object built from the same
+            # document, other call order, point by point) gives the same value at the same temperature; every one of these evaluations is
+            # judged by the post-condition as well
+            CUR["judge"] = True
+            first = dict(zip(o["temperature"].to_numpy().tolist(), zip(o["predicted"].to_numpy().tolist(), o["heating_load"].to_numpy().tolist(), o["cooling_load"].to_numpy().tolist())))
+            sub = T[:: max(1, len(T) // 200)].copy()
+            m2 = em.DailyModel.from_dict(doc)
+            for who, mm, tt in (("same-object", m, sub[::-1].copy()), ("second-object-from-the-same-document", m2, sub), ("same-object-point-by-point", m, sub[:3])):
+                if who.endswith("point-by-point"):
+                    outs = [mm._predict(_predict_cols(mm, np.array([t_]))) for t_ in tt]
+                    o2 = pd.concat(outs)
+                else:
+                    o2 = mm._predict(_predict_cols(mm, tt))
+                I.reach("repeat.evaluations_compared")
+                bad = [(t_, first[t_], (y_, h_, c_)) for t_, y_, h_, c_ in zip(o2["temperature"].to_numpy().tolist(), o2["predicted"].to_numpy().tolist(),
+                                                                      o2["heating_load"].to_numpy().tolist(), o2["cooling_load"].to_numpy().tolist())
+                       if t_ in first and not all((a_ == b_) or (a_ != a_ and b_ != b_) for a_, b_ in zip(first[t_], (y_, h_, c_)))]
+                if bad:
+                    add("value-at-a-temperature-depends-on-earlier-evaluations:%s:%s" % (shape, who),
+                        "%d of %d temperatures: e.g. T=%r first evaluation %r, %s evaluation %r" % (len(bad), len(o2), bad[0][0], bad[0][1], who, bad[0][2]))
+            CUR["judge"] = False
         regimes = sorted(k for k in I.REACH if k.startswith("regime.") and I.REACH[k] > before.get(k, 0))
         hit = _where(0.0, coef, tc).split(":")[-1].replace("in-range", "").strip(",")
         hist["shape"][shape] = hist["shape"].get(shape, 0) + 1
